@@ -7,6 +7,7 @@ import PRV.Driver.C16
 import PRV.Driver.C10
 import PRV.Driver.C08
 import PRV.Driver.C08m
+import PRV.Driver.C09
 import PRV.Driver.C20
 import PRV.Driver.C11
 import PRV.Driver.C07
@@ -39,6 +40,7 @@ def main (args : List String) : IO UInt32 := do
   | ["model", "c08"] => run C08m.machine; return 0
   | ["spec", "c08"] => run C08m.machine; return 0
   | ["monitor", "c08"] => runMonitor C08.monitor; return 0
+  | ["monitor", "c09"] => runMonitor C09.monitor; return 0
   | ["model", "c10"] => run C10.machine; return 0
   | ["monitor", "c10"] => runMonitor C10.monitor; return 0
   | ["monitor", "c20"] => runMonitor C20.monitor; return 0
